@@ -4,6 +4,8 @@ import (
 	"bufio"
 	"encoding/json"
 	"fmt"
+	"github.com/clipperhouse/uax29/v2/words"
+	"golang.org/x/text/unicode/norm"
 	"math"
 	"math/rand"
 	"os"
@@ -233,4 +235,16 @@ func (c *Case) Pairs(ps [][2]uint64) *Case {
 		c.U(p[0]).U(p[1])
 	}
 	return c
+}
+
+// specTokens is the property's own definition of the tokens of a text (C03: UAX#29 segments of the
+// NFKC-normalised, lower-cased text), computed by the harness from the libraries themselves and NOT by
+// asking the implementation's normalize / tokenize: a change to either is then a disagreement.
+func specTokens(text string) []string {
+	it := words.FromString(strings.ToLower(norm.NFKC.String(text)))
+	var out []string
+	for it.Next() {
+		out = append(out, it.Value())
+	}
+	return out
 }
